@@ -103,6 +103,18 @@ func (m *verifMutex) Lock() {
 	rt.YieldUntil("mutex.Lock", func() bool { return !m.locked })
 	m.locked = true
 }
+func (m *verifMutex) TryLock() bool {
+	rt := verifRT
+	if rt == nil {
+		return m.real.TryLock()
+	}
+	rt.Yield("mutex.TryLock")
+	if m.locked {
+		return false
+	}
+	m.locked = true
+	return true
+}
 func (m *verifMutex) Unlock() {
 	if verifRT == nil {
 		m.real.Unlock()
@@ -132,6 +144,37 @@ func (m *verifRWMutex) Lock() {
 	m.wwaiting--
 	m.writer = true
 }
+func (m *verifRWMutex) TryLock() bool {
+	rt := verifRT
+	if rt == nil {
+		return m.real.TryLock()
+	}
+	rt.Yield("rwmutex.TryLock")
+	if m.writer || m.readers > 0 {
+		return false
+	}
+	m.writer = true
+	return true
+}
+func (m *verifRWMutex) TryRLock() bool {
+	rt := verifRT
+	if rt == nil {
+		return m.real.TryRLock()
+	}
+	rt.Yield("rwmutex.TryRLock")
+	if m.writer || m.wwaiting > 0 {
+		return false
+	}
+	m.readers++
+	return true
+}
+func (m *verifRWMutex) RLocker() sync.Locker { return (*verifRLocker)(m) }
+
+type verifRLocker verifRWMutex
+
+func (r *verifRLocker) Lock()   { (*verifRWMutex)(r).RLock() }
+func (r *verifRLocker) Unlock() { (*verifRWMutex)(r).RUnlock() }
+
 func (m *verifRWMutex) Unlock() {
 	if verifRT == nil {
 		m.real.Unlock()
